@@ -43,9 +43,26 @@ func vSortedPairs(m map[string]bool) string {
 }
 
 func vLaspOp(t []string) string {
-	viaProcessor := vStr(t, 1) == "pconnect"
+	viaProcessor := vStr(t, 1) == "pconnect" || vStr(t, 1) == "pconnect2"
 	if vStr(t, 1) != "connect" && !viaProcessor {
 		return "bad-op"
+	}
+	// pconnect2: an EARLIER attempt of the same application (the collector then offered the policies pre1, and the connect
+	// failed with 503) precedes the attempt that is observed
+	phase := 2
+	pre1Body := ""
+	if vStr(t, 1) == "pconnect2" {
+		phase = 1
+		p1, _ := vKV(t, "pre1")
+		var sp1 []string
+		if p1 != "-" && p1 != "" {
+			for _, e := range strings.Split(p1, ",") {
+				f := strings.Split(e, ":")
+				sp1 = append(sp1, fmt.Sprintf("%q:{\"enabled\":%v,\"required\":%v}", f[0], f[1] == "1", f[2] == "1"))
+			}
+		}
+		sort.Strings(sp1)
+		pre1Body = fmt.Sprintf(`{"redirect_host":"collector-1.example","security_policies":{%s}}`, strings.Join(sp1, ","))
 	}
 	tok, _ := vKV(t, "token")
 	aps, _ := vKV(t, "ap")
@@ -82,6 +99,12 @@ func vLaspOp(t []string) string {
 	client := collector.ClientFn(func(cmd *collector.RpmCmd, cs collector.RpmControls) collector.RPMResponse {
 		cmu.Lock()
 		defer cmu.Unlock()
+		if phase == 1 {
+			if cmd.Name == collector.CommandPreconnect {
+				return collector.RPMResponse{StatusCode: 200, Body: []byte(pre1Body)}
+			}
+			return collector.RPMResponse{StatusCode: 503, Err: fmt.Errorf("response code: 503")}
+		}
 		cmds = append(cmds, cmd.Name)
 		data, _ := cs.Collectible.CollectorJSON(false)
 		switch cmd.Name {
@@ -108,7 +131,11 @@ func vLaspOp(t []string) string {
 	if viaProcessor {
 		// the agent's App message through CommandsHandler and the real processor loop (processAppInfo, considerConnect,
 		// ConnectApplication in its goroutine, processConnectAttempt); a second query reads what agents are handed back
-		ok, returnedRaw = vLaspViaProcessor(info, client)
+		ok, returnedRaw = vLaspViaProcessor(info, client, func() {
+			cmu.Lock()
+			phase = 2
+			cmu.Unlock()
+		}, vStr(t, 1) == "pconnect2")
 		cmu.Lock()
 		defer cmu.Unlock()
 	} else {
@@ -142,7 +169,7 @@ func vLaspOp(t []string) string {
 	return fmt.Sprintf("cmds=%s ok=%d payload=%s returned=%s", strings.Join(cmds, ","), b, payload, returned)
 }
 
-func vLaspViaProcessor(info *AppInfo, client collector.Client) (bool, []byte) {
+func vLaspViaProcessor(info *AppInfo, client collector.Client, nextPhase func(), twoAttempts bool) (bool, []byte) {
 	p := NewProcessor(ProcessorConfig{Client: client})
 	p.trackProgress = make(chan struct{})
 	go p.Run()
@@ -183,6 +210,16 @@ func vLaspViaProcessor(info *AppInfo, client collector.Client) (bool, []byte) {
 	}
 	query()
 	tick(vWatchdog) // the connect attempt's result
+	if twoAttempts {
+		// the first attempt is over (refused by verification, or its connect failed): after the back-off the next query
+		// launches the attempt that is observed
+		nextPhase()
+		for _, app := range p.apps {
+			app.lastConnectAttempt = app.lastConnectAttempt.Add(-time.Hour)
+		}
+		query()
+		tick(vWatchdog)
+	}
 	rep := query()
 	if rep == nil {
 		return false, nil
